@@ -792,6 +792,9 @@ func (g *Gen) stmt(depth int) []*S {
 			return nil
 		}
 		rhs := g.expr(t, depth)
+		if t.K == "string" && !g.growthOK() && hasStringSource(rhs) {
+			rhs = g.strLit()
+		}
 		if t.K == "slice" && lv.K == "var" {
 			g.shared[lv.Name] = rhs.K == "var" // the target now holds whatever the source holds
 		}
@@ -806,7 +809,11 @@ func (g *Gen) stmt(depth int) []*S {
 			return nil
 		}
 		if t.K == "string" {
-			return []*S{{K: "opassign", Lhs: []*E{lv}, Op: "+", E: g.expr(TString, depth-1)}}
+			rhs := g.expr(TString, depth-1)
+			if !g.growthOK() && hasStringSource(rhs) {
+				rhs = g.strLit()
+			}
+			return []*S{{K: "opassign", Lhs: []*E{lv}, Op: "+", E: rhs}}
 		}
 		ops := []string{"+", "-", "*", "&", "|", "^", "<<", ">>", "/", "%"}
 		op := ops[g.r.Intn(len(ops))]
@@ -907,6 +914,34 @@ func (g *Gen) stmt(depth int) []*S {
 }
 
 func (g *Gen) inMain() bool { return g.results == nil }
+
+// growthOK: a string may be assigned something built from other strings only where the statement runs
+// once (Main, outside loops): repeated s += s style growth makes values exponentially large, which
+// neither the specification's evaluation nor the comparison needs.
+func (g *Gen) growthOK() bool { return g.inMain() && g.loop == 0 && !g.inLit }
+
+func hasStringSource(e *E) bool {
+	if e == nil {
+		return false
+	}
+	switch e.K {
+	case "var", "field", "call", "callv", "mcall", "index", "mapget", "slice":
+		return true
+	case "len", "str", "int", "bool":
+		return false
+	}
+	for _, x := range []*E{e.L, e.R, e.X, e.I} {
+		if hasStringSource(x) {
+			return true
+		}
+	}
+	for _, x := range e.Args {
+		if hasStringSource(x) {
+			return true
+		}
+	}
+	return false
+}
 
 func (g *Gen) nonConstOrLit(t *Ty) *E {
 	if e := g.nonConst(t, 1); e != nil {
